@@ -11,74 +11,6 @@ From PV Require Import lib.Sx lib.Str lib.Result model.Store model.Iso spec.Spec
 Import ListNotations.
 
 (* ---- decidable equality on snapshots -------------------------------------------------------------------------------- *)
-Fixpoint tree_eqb (a b : tree) : bool :=
-  match a, b with
-  | TInt x, TInt y => (x =? y)%Z
-  | TStr x, TStr y => str_eqb x y
-  | TNone, TNone => true
-  | TCut, TCut => true
-  | TNode k1 l1, TNode k2 l2 =>
-      (k1 =? k2)%Z &&
-      (fix go (l1 l2 : list (tree * tree)) : bool :=
-         match l1, l2 with
-         | [], [] => true
-         | (a1, b1) :: t1, (a2, b2) :: t2 => tree_eqb a1 a2 && tree_eqb b1 b2 && go t1 t2
-         | _, _ => false
-         end) l1 l2
-  | _, _ => false
-  end.
-
-Definition items_eqb (l1 l2 : list (tree * tree)) : bool :=
-  (fix go (l1 l2 : list (tree * tree)) : bool :=
-     match l1, l2 with
-     | [], [] => true
-     | (a1, b1) :: t1, (a2, b2) :: t2 => tree_eqb a1 a2 && tree_eqb b1 b2 && go t1 t2
-     | _, _ => false
-     end) l1 l2.
-
-Lemma tree_eqb_node : forall k1 l1 k2 l2, tree_eqb (TNode k1 l1) (TNode k2 l2) = ((k1 =? k2)%Z && items_eqb l1 l2).
-Proof. reflexivity. Qed.
-Lemma items_eqb_cons : forall a1 b1 t1 a2 b2 t2,
-  items_eqb ((a1, b1) :: t1) ((a2, b2) :: t2) = (tree_eqb a1 a2 && tree_eqb b1 b2 && items_eqb t1 t2).
-Proof. reflexivity. Qed.
-
-Lemma str_eqb_refl : forall s, str_eqb s s = true.
-Proof. induction s as [|x t IH]; simpl; auto. rewrite Z.eqb_refl. exact IH. Qed.
-Lemma str_eqb_eq : forall a b, str_eqb a b = true -> a = b.
-Proof.
-  induction a as [|x t IH]; intros [|y u] H; simpl in H; try discriminate; auto.
-  apply andb_true_iff in H. destruct H as [A B]. apply Z.eqb_eq in A. subst. f_equal. auto.
-Qed.
-
-Lemma tree_eqb_refl_n : forall n t, (tsize t <= n)%nat -> tree_eqb t t = true.
-Proof.
-  induction n as [|n IH]; intros t Hn; [destruct t; simpl in Hn; lia|].
-  destruct t as [z|s| |k items|]; simpl; auto using Z.eqb_refl, str_eqb_refl.
-  change (((k =? k)%Z && items_eqb items items) = true). rewrite Z.eqb_refl. cbn [andb].
-  rewrite tsize_node in Hn. assert (Hi : (isize items <= n)%nat) by lia. clear Hn.
-  induction items as [|[a b] r IHr]; [reflexivity|].
-  rewrite isize_cons in Hi. rewrite items_eqb_cons. rewrite (IH a), (IH b) by lia. cbn [andb]. apply IHr. lia.
-Qed.
-Lemma tree_eqb_refl : forall t, tree_eqb t t = true.
-Proof. intros t. apply (tree_eqb_refl_n (tsize t)). lia. Qed.
-
-Lemma tree_eqb_eq_n : forall n a, (tsize a <= n)%nat -> forall b, tree_eqb a b = true -> a = b.
-Proof.
-  induction n as [|n IH]; intros a Hn b H; [destruct a; simpl in Hn; lia|].
-  destruct a as [z|s| |k items|]; destruct b as [z'|s'| |k' items'|]; simpl in H; try discriminate; auto.
-  - apply Z.eqb_eq in H. subst. reflexivity.
-  - apply str_eqb_eq in H. subst. reflexivity.
-  - change (((k =? k')%Z && items_eqb items items') = true) in H. apply andb_true_iff in H. destruct H as [A B].
-    apply Z.eqb_eq in A. subst k'. f_equal.
-    rewrite tsize_node in Hn. assert (Hi : (isize items <= n)%nat) by lia. clear Hn.
-    revert items' B. induction items as [|[a1 b1] r IHr]; intros [|[a2 b2] r'] B; try discriminate; auto.
-    rewrite isize_cons in Hi. rewrite items_eqb_cons in B.
-    apply andb_true_iff in B. destruct B as [B C]. apply andb_true_iff in B. destruct B as [B1 B2].
-    rewrite (IH a1 ltac:(lia) a2 B1), (IH b1 ltac:(lia) b2 B2). f_equal. apply IHr; auto. lia.
-Qed.
-Lemma tree_eqb_eq : forall a b, tree_eqb a b = true -> a = b.
-Proof. intros a b. apply (tree_eqb_eq_n (tsize a)). lia. Qed.
-
 (* ---- the model's observations of a history ---------------------------------------------------------------------------- *)
 Definition enc_out (r : result out) : tree :=
   match r with
@@ -131,21 +63,6 @@ Fixpoint model_obs (c : cfg) (w : world) (ops : list op) : list (iobs tree) :=
   match ops with
   | [] => []
   | o :: t => obs_of c w o :: model_obs c (fst (step c w o)) t
-  end.
-
-(* side condition of the determinism clause: the model's fuel-indexed deepcopy never ran out of fuel *)
-Fixpoint no_fuel_exhaustion (c : cfg) (w : world) (ops : list op) : Prop :=
-  match ops with
-  | [] => True
-  | o :: t =>
-      (match o with
-       | OWrite wid k wo si =>
-           match nth_error (w_sets w) si with
-           | Some s => forall wi, wr_result (write c k wo wi (w_st w) s) <> Err EOutOfFuel
-           | None => True
-           end
-       | _ => True
-       end) /\ no_fuel_exhaustion c (fst (step c w o)) t
   end.
 
 (* ---- list lemmas about the oracle's comparisons ------------------------------------------------------------------------- *)
@@ -202,11 +119,11 @@ Lemma step_sets_write : forall c w wid k wo si, w_sets (fst (step c w (OWrite wi
 Proof. intros. unfold step. destruct (nth_error (w_sets w) si); reflexivity. Qed.
 
 Lemma c09_gen : forall c ops w i seen,
-  repaired c -> fix15 c = true -> wf_world w -> seen_ok seen -> no_fuel_exhaustion c w ops ->
+  repaired c -> fix15 c = true -> wf_world w -> seen_ok seen ->
   check_hist tree tree_eqb TCut true false i (digests_of w) seen (model_obs c w ops) = [].
 Proof.
-  intros c ops. induction ops as [|o t IH]; intros w i seen Hc Hf Hw Hseen Hnf; [reflexivity|].
-  cbn [model_obs check_hist]. destruct Hnf as [Hnf0 Hnft].
+  intros c ops. induction ops as [|o t IH]; intros w i seen Hc Hf Hw Hseen; [reflexivity|].
+  cbn [model_obs check_hist].
   pose proof (step_wf_world c w o Hc Hw) as Hw1.
   destruct o as [tr|rid rk tr|wid k wo si|si e].
   - (* build *) cbn [obs_of io_kind io_digests]. cbn [Z.eqb andb app]. apply IH; auto.
@@ -227,8 +144,7 @@ Proof.
       rewrite Hdg.
       assert (Hb : below (length (w_st w)) s) by (eapply nth_error_Forall; [exact (proj2 Hw)|exact Es]).
       assert (Hres : wr_result (write c k wo wi (w_st w) s) = output_of k wo (snap FUEL (w_st w) s)).
-      { destruct (write_result_function_of_snapshot c k wo wi (w_st w) s Hf (proj1 Hw) Hb) as [H|H]; [|exact H].
-        exfalso. apply (Hnf0 wi H). }
+      { apply write_result_is_output_of; auto. exact (proj1 Hw). }
       fold wi. rewrite Hres. rewrite conflicting_false by exact Hseen. cbn [app].
       rewrite <- Hsame. apply IH; auto.
       constructor; [|exact Hseen]. exists k, wo. cbn [fst snd]. split; reflexivity.
@@ -242,10 +158,10 @@ Qed.
    ok_c09 - instantiated on the model's own snapshots and outputs - finds nothing: no write changes any set, and equal
    (writer, options, snapshot) give equal results *)
 Theorem model_meets_ok_c09 : forall c ops,
-  repaired c -> fix15 c = true -> no_fuel_exhaustion c world0 ops ->
+  repaired c -> fix15 c = true ->
   check_hist tree tree_eqb TCut true false 0 [] [] (model_obs c world0 ops) = [].
 Proof.
-  intros c ops Hc Hf Hnf. apply (c09_gen c ops world0 0%Z [] Hc Hf wf_world0 (Forall_nil _) Hnf).
+  intros c ops Hc Hf. apply (c09_gen c ops world0 0%Z [] Hc Hf wf_world0 (Forall_nil _)).
 Qed.
 
 (* ---- C10: the model meets ok_c10 ------------------------------------------------------------------------------------------ *)
@@ -257,8 +173,8 @@ Lemma pristine_eq : forall c rk ri t st st' ri' s,
 Proof.
   intros c rk ri t st st' ri' s Hc H. unfold pristine_of.
   destruct (read c rk rinst0 t store0) as [[st0 r0] s0] eqn:E0. rewrite FUEL_4.
-  rewrite (read_result_function_of_document c rk ri t st st' ri' s 60 Hc H).
-  rewrite (read_result_function_of_document c rk rinst0 t store0 st0 r0 s0 60 Hc E0). reflexivity.
+  rewrite (read_result_function_of_document c rk ri t st st' ri' s 60 Hc (le_n _) H).
+  rewrite (read_result_function_of_document c rk rinst0 t store0 st0 r0 s0 60 Hc (le_n _) E0). reflexivity.
 Qed.
 
 Lemma c10_gen : forall c ops w i seen,
